@@ -15,7 +15,7 @@ why = {
 }
 out = []
 out.append("## 5. Seeded changes: what catches what\n")
-out.append(f"""{tot} property-breaking changes produced independently by sub-agents (eight
+out.append(f"""{tot} property-breaking changes produced independently by sub-agents (nine
 rounds of 20 agents × 2, plus one extra; two candidates of the early rounds were
 dropped: one duplicated an earlier change, one stopped being a violation after
 the repair ec217a2), each given only the property text and its own scratch
@@ -27,8 +27,8 @@ re-run. Detection after strengthening: **{det} of {tot}** (recomputed by
 `tools/refresh_seeded.py` on the current tree with the current checker, table
 below from `tools/seeded_table.py`). The first-pass rate — what the checks
 caught before any rule was added for the round — was 38 of 40 in the seventh
-round and 31 of 40 in the eighth: the agents are told what was already
-collected and move to code the rules do not read yet.
+round, 31 of 40 in the eighth and 26 of 40 in the ninth: the agents are told
+what was already collected and move to code the rules do not read yet.
 
 Rules written *in response to* a miss: S7, Y4/Y5, M7, screw spec, Z7, BB-6,
 K5, V3 freshness, Q4, E2, H3 (round 1); BB-7, M8, W5, T6/U4 pair coverage, D8,
@@ -41,7 +41,9 @@ Z14, H7, K12, K13, E3, L3 rounded extrusion, BB-11, M12, K8 bound (rounds 5 and
 6); Z15, W13, W14, K15, zero-tolerance degenerate filters, unconditional
 farthest-corner fold, sign-assignment enumeration of cell skips, atomic stores
 as writes, H8, S12 (round 7); W16, T10/U10, O5, Z16, H9, K16, K17, Y9, the
-`Canonical` shortcut rule (round 8). The agents' side notes on the unchanged
+`Canonical` shortcut rule (round 8); M13, W17, W18, the in-loop `Degenerate`
+branches, the I/O-error notion of B7/X5, B8, G8, S13, the single-subtraction
+rule of X3, Z17, K18, K19, Y10, Y11 (round 9). The agents' side notes on the unchanged
 tree led to most of the repaired defects (section 3).
 """)
 out.append("**Misses (documented, not papered over):**")
